@@ -19,7 +19,7 @@ Definition mupdate (s : mstore) (e : mentry) : mstore * (N * pair) :=
   let mismatch :=
     match mget s (me_key e) with
     | Some cur => if pver cur =? me_ver e then None else Some cur
-    | None => None
+    | None => if me_ver e =? 0 then None else Some {| pk := me_key e; pv := []; pver := 0 |}   (* an absent key has version 0 *)
     end in
   match mismatch with
   | Some cur => (s, (kv_ResultCodeVersionMismatch, cur))
